@@ -28,6 +28,10 @@ def inTxn (c : Client DB Res) : Bool :=
   | .ran _ _ _ _ _ => true
   | _ => false
 
+theorem Init.inv {s0 : Sys DB Res} (h : Init s0) : Inv s0.db s0 := Inv_init h.lock h.log h.idle
+
+theorem Init.resInv {s0 : Sys DB Res} (h : Init s0) : ResInv s0 := ResInv_init h.log h.idle
+
 /-- C05 `lock_excl`: at any instant at most one client holds a private working copy, and it
 is the lock holder; when the lock is free nobody is inside a transaction -/
 theorem lock_excl (s0 : Sys DB Res) (h : Init s0) (sched : List Nat) :
@@ -35,20 +39,37 @@ theorem lock_excl (s0 : Sys DB Res) (h : Init s0) (sched : List Nat) :
     (∀ (i j : Nat) (ci cj : Client DB Res), s.clients[i]? = some ci → s.clients[j]? = some cj →
         inTxn ci = true → inTxn cj = true → i = j) ∧
     (∀ (i : Nat) (ci : Client DB Res), s.clients[i]? = some ci → inTxn ci = true → s.lock = some i) := by
-  sorry
+  intro s
+  have hI : Inv s0.db s := Inv_run h.inv sched
+  have key : ∀ (i : Nat) (ci : Client DB Res), s.clients[i]? = some ci → inTxn ci = true →
+      s.lock = some i := by
+    intro i ci hi ht
+    unfold inTxn at ht
+    split at ht
+    · rename_i f w hpc
+      exact (hI.begun i ci f w hi hpc).1
+    · rename_i f w r ok cl hpc
+      exact (hI.ran i ci f w r ok cl hi hpc).1
+    · simp at ht
+  refine ⟨?_, key⟩
+  intro i j ci cj hi hj hti htj
+  have h1 := key i ci hi hti
+  have h2 := key j cj hj htj
+  rw [h1] at h2
+  exact Option.some.inj h2
 
 /-- C05 `linearizable` (state): at any instant the committed database is exactly what executing
 the logged calls ONE AT A TIME, in log order, produces -/
 theorem serializable_db (s0 : Sys DB Res) (h : Init s0) (sched : List Nat) :
     (run s0 sched).db = replay s0.db (run s0 sched).log := by
-  sorry
+  exact (Inv_run h.inv sched).hdb
 
 /-- C05 `linearizable` (results): the result every logged call returned is the result it has
 in that sequential execution — so concurrent add succeeds for exactly one caller, incr loses no
 update, pop/delete succeeds once, whatever the bodies are -/
 theorem serializable_results (s0 : Sys DB Res) (h : Init s0) (sched : List Nat) :
     (run s0 sched).log.map (·.res) = replayRes s0.db (run s0 sched).log := by
-  sorry
+  exact (Inv_run h.inv sched).hres
 
 /-- every result a client has received (other than Timeout) is the result of one of its logged
 calls, in program order -/
@@ -56,7 +77,9 @@ theorem results_logged (s0 : Sys DB Res) (h : Init s0) (sched : List Nat) (cid :
     (c : Client DB Res) (hc : (run s0 sched).clients[cid]? = some c) :
     (c.results.filterMap id).IsPrefix
       (((run s0 sched).log.filter (fun e => e.cid == cid)).map (·.res)) := by
-  sorry
+  have := ResInv_run h.resInv sched cid c hc
+  rw [← this]
+  exact List.prefix_append _ _
 
 /-- C06 `isolated`: between a client's BEGIN and its COMMIT no other client's write takes
 effect: while a client holds a private copy, that copy started from the committed database,
@@ -66,7 +89,17 @@ theorem isolated (s0 : Sys DB Res) (h : Init s0) (sched : List Nat) (cid : Nat) 
     (∀ f w, c.pc = .begun f w → w = (run s0 sched).db) ∧
     (∀ f w r ok cl fr rt b rest, c.pc = .ran f w r ok cl → c.prog = .txn fr rt b :: rest →
         b.run (run s0 sched).db f = (w, r, ok, cl)) := by
-  sorry
+  have hI := Inv_run h.inv sched
+  refine ⟨?_, ?_⟩
+  · intro f w hpc
+    exact (hI.begun cid c f w hc hpc).2.1
+  · intro f w r ok cl fr rt b rest hpc hprog
+    obtain ⟨_, fr', rt', b', rest', hp', hb⟩ := hI.ran cid c f w r ok cl hc hpc
+    rw [hprog] at hp'
+    injection hp' with h1 h2
+    injection h1 with _ _ hb'
+    subst hb'
+    exact hb
 
 /-- C14 `timeout_no_effect`: a call that cannot get the lock and does not retry returns Timeout
 and changes nothing: not the database, not the log, not the lock -/
@@ -76,7 +109,10 @@ theorem timeout_no_effect (s : Sys DB Res) (cid other : Nat) (c : Client DB Res)
     (step s cid).db = s.db ∧ (step s cid).log = s.log ∧ (step s cid).lock = s.lock ∧
     (step s cid).files = s.files ∧
     (step s cid).clients[cid]? = some (finish c none) := by
-  sorry
+  have hlen : cid < s.clients.length := (List.getElem?_eq_some_iff.1 hc).1
+  have hs : step s cid = setClient s cid (finish c none) := by simp [step, hc, hpc, hp, hl]
+  rw [hs]
+  simp [setClient, List.getElem?_set_self hlen]
 
 /-- C14: ... and when it had written a value file first, the file is removed again before the
 call returns Timeout (three steps: BEGIN fails, FREMOVE, return) -/
@@ -87,7 +123,33 @@ theorem timeout_removes_file (s : Sys DB Res) (cid other : Nat) (c : Client DB R
     let s3 := step (step (step s cid) cid) cid
     s3.db = s.db ∧ s3.log = s.log ∧ s3.lock = s.lock ∧ s3.files = s.files.filter (· != f) ∧
     s3.clients[cid]? = some (finish c none) := by
-  sorry
+  have _ := hne
+  have hlen : cid < s.clients.length := (List.getElem?_eq_some_iff.1 hc).1
+  have h1 : step s cid = setClient s cid { c with pc := .undo none (some f) } := by
+    simp [step, hc, hpc, hp, hl]
+  have hc1 : (step s cid).clients[cid]? = some { c with pc := .undo none (some f) } := by
+    rw [h1]; exact List.getElem?_set_self hlen
+  have h2 : step (step s cid) cid = { (setClient (step s cid) cid { c with pc := .undo none none })
+      with files := (step s cid).files.filter (· != f) } := by
+    have := step_unlink hc1 rfl
+    exact this
+  have hlen1 : cid < (step s cid).clients.length := (List.getElem?_eq_some_iff.1 hc1).1
+  have hc2 : (step (step s cid) cid).clients[cid]? = some { c with pc := .undo none none } := by
+    rw [h2]; exact List.getElem?_set_self hlen1
+  have h3 : step (step (step s cid) cid) cid =
+      setClient (step (step s cid) cid) cid (finish { c with pc := .undo none none } none) := by
+    have := step_undone hc2 rfl
+    exact this
+  have hlen2 : cid < (step (step s cid) cid).clients.length := (List.getElem?_eq_some_iff.1 hc2).1
+  intro s3
+  refine ⟨?_, ?_, ?_, ?_, ?_⟩
+  · simp only [s3, h3, setClient]; simp only [h2, setClient]; simp only [h1, setClient]
+  · simp only [s3, h3, setClient]; simp only [h2, setClient]; simp only [h1, setClient]
+  · simp only [s3, h3, setClient]; simp only [h2, setClient]; simp only [h1, setClient]
+  · simp only [s3, h3, setClient]; simp only [h2, setClient]; simp only [h1, setClient]
+  · simp only [s3, h3, setClient]
+    rw [List.getElem?_set_self hlen2]
+    simp [finish]
 
 /-- C14 `retry_waits`: with retry, a call that finds the lock held changes nothing at all and
 will try again -/
@@ -96,7 +158,7 @@ theorem retry_waits (s : Sys DB Res) (cid other : Nat) (c : Client DB Res) (fr :
     (hpc : c.pc = .idle ∧ fr = false ∨ ∃ f, c.pc = .wrote f)
     (hp : c.prog = .txn fr true b :: rest) (hl : s.lock = some other) :
     step s cid = s := by
-  sorry
+  rcases hpc with ⟨hpc, rfl⟩ | ⟨f, hpc⟩ <;> simp [step, hc, hpc, hp, hl]
 
 /-- C14 `reads_need_no_lock`: a lock-free look-up completes in one step whoever holds the lock,
 and sees the committed database -/
@@ -105,7 +167,11 @@ theorem reads_need_no_lock (s : Sys DB Res) (cid : Nat) (c : Client DB Res) (g :
     (hp : c.prog = .read g :: rest) :
     (step s cid).clients[cid]? = some (finish c (some (g s.db))) ∧ (step s cid).db = s.db ∧
     (step s cid).lock = s.lock := by
-  sorry
+  have hlen : cid < s.clients.length := (List.getElem?_eq_some_iff.1 hc).1
+  have hs : step s cid = { (setClient s cid (finish c (some (g s.db)))) with
+      log := s.log ++ [⟨cid, .read g, none, g s.db⟩] } := by simp [step, hc, hpc, hp]
+  rw [hs]
+  simp [setClient, List.getElem?_set_self hlen]
 
 /-! ### value files: every referenced file exists at every instant, also after a crash -/
 
@@ -124,6 +190,13 @@ def OpOk (refs : DB → List FName) : Op DB Res → Prop
 def ProgsOk (refs : DB → List FName) (s : Sys DB Res) : Prop :=
   ∀ c ∈ s.clients, ∀ op ∈ c.prog, OpOk refs op
 
+theorem ProgsOk.safe {refs : DB → List FName} {s : Sys DB Res} (hp : ProgsOk refs s) :
+    ProgsSafe refs s := fun c hc _ _ _ hm => hp c hc _ hm
+
+theorem Init.finv {refs : DB → List FName} {s0 : Sys DB Res} (h : Init s0) (hp : ProgsOk refs s0)
+    (h0 : ∀ x ∈ refs s0.db, x ∈ s0.files) : FInv refs s0 :=
+  FInv_init hp.safe h.idle h.fresh h0
+
 /-- C05/C07 `ref_complete`: at EVERY instant of EVERY schedule every value file the committed
 database names exists (files are written before BEGIN and removed only after COMMIT, fresh
 names never repeat) — so a reader never finds a key whose file is gone except through the
@@ -131,7 +204,7 @@ tolerated overlap, and a process killed at any instant leaves no listed key with
 theorem ref_complete (refs : DB → List FName) (s0 : Sys DB Res) (h : Init s0)
     (hp : ProgsOk refs s0) (h0 : ∀ x ∈ refs s0.db, x ∈ s0.files) (sched : List Nat) :
     ∀ x ∈ refs (run s0 sched).db, x ∈ (run s0 sched).files := by
-  sorry
+  exact (FInv_run h.inv (h.finv hp h0) sched).refd
 
 /-- C07 `crash_safe`: killing any client at any instant keeps the committed database (every
 completed call is reflected, the interrupted one is all-or-nothing: the database is still the
@@ -140,7 +213,9 @@ theorem crash_safe (refs : DB → List FName) (s0 : Sys DB Res) (h : Init s0)
     (hp : ProgsOk refs s0) (h0 : ∀ x ∈ refs s0.db, x ∈ s0.files) (sched : List Nat) (victim : Nat) :
     let s := crash (run s0 sched) victim
     s.db = replay s0.db s.log ∧ (∀ x ∈ refs s.db, x ∈ s.files) ∧ s.lock ≠ some victim := by
-  sorry
+  have hI := Inv_run h.inv sched
+  have hF := FInv_run h.inv (h.finv hp h0) sched
+  exact ⟨(Inv_crash hI victim).hdb, (FInv_crash hF victim).refd, crash_lock hI victim⟩
 
 /-- C07: the survivors carry on: after a crash the protocol invariants still hold for every
 further schedule (the lock is free or held by a live client inside its transaction) -/
@@ -148,7 +223,9 @@ theorem crash_then_run (refs : DB → List FName) (s0 : Sys DB Res) (h : Init s0
     (hp : ProgsOk refs s0) (h0 : ∀ x ∈ refs s0.db, x ∈ s0.files) (sched sched' : List Nat) (victim : Nat) :
     let s := run (crash (run s0 sched) victim) sched'
     s.db = replay s0.db s.log ∧ (∀ x ∈ refs s.db, x ∈ s.files) := by
-  sorry
+  have hI := Inv_crash (Inv_run h.inv sched) victim
+  have hF := FInv_crash (FInv_run h.inv (h.finv hp h0) sched) victim
+  exact ⟨(Inv_run hI sched').hdb, (FInv_run hI hF sched').refd⟩
 
 /-- non-vacuity: two clients incrementing one counter under an adversarial schedule lose no
 update (database = Nat, incr body) -/
